@@ -53,6 +53,7 @@ func (w *nopWriter) WriteHeader(int)             {}
 type entry struct{ method, pat string }
 
 type routeSet struct {
+	fixed    [][3]string // fixed requests (method, host, path) served besides the generated ones
 	kind     string
 	entries  []entry
 	ignoreTS bool
@@ -206,6 +207,29 @@ func genWide(r *hx.Rand) *routeSet {
 	return rs
 }
 
+// fixed witnesses, run first on every invocation:
+//   - the former finding C16_hostport_error_alloc (fixed by 84f3380): a Host that net.SplitHostPort rejects must cost 0 allocations;
+//   - the ladder of Alloc2.skipped_bounded_by_depth_refuted: skipNds (cap depth = 3) needs 4 entries on the cold run;
+//   - ignored trailing slash with parameters (tsrParams written by copyWithResize).
+var fixedSets = []func() *routeSet{
+	func() *routeSet {
+		return &routeSet{kind: "witness", methods: []string{"GET"},
+			entries: []entry{{"GET", "a.com/x"}, {"GET", "/y"}, {"GET", "{sub}.b.com/z"}},
+			fixed: [][3]string{{"GET", "[::1]", "/y"}, {"GET", "::1", "/y"}, {"GET", "[fe80::1%eth0]", "/y"}, {"GET", "a:b:80", "/y"},
+				{"GET", "[::1]:80", "/y"}, {"GET", "a.com:80", "/x"}, {"GET", "a.com", "/x"}, {"GET", "a.com.", "/x"}, {"GET", "foo.b.com:8080", "/z"}}}
+	},
+	func() *routeSet {
+		return &routeSet{kind: "witness", methods: []string{"GET"},
+			entries: []entry{{"GET", "/a/b/c"}, {"GET", "/a/b/{x}"}, {"GET", "/a/b/*{y}"}, {"GET", "/a/{p}"}, {"GET", "/a/*{q}"}},
+			fixed: [][3]string{{"GET", "", "/a/b/c"}, {"GET", "", "/a/b/zz"}, {"GET", "", "/a/b/zz/t"}, {"GET", "", "/a/zz/yy"}, {"GET", "", "/a/zz"}}}
+	},
+	func() *routeSet {
+		return &routeSet{kind: "witness", methods: []string{"GET"}, ignoreTS: true,
+			entries: []entry{{"GET", "/{a}/x/"}, {"GET", "/u/{b}/{c}"}, {"GET", "h.{d}/*{w}/e/"}, {"GET", "/s/*{v}/t/{k}/"}},
+			fixed: [][3]string{{"GET", "", "/v/x"}, {"GET", "", "/u/1/2/"}, {"GET", "h.q", "/r/s/e"}, {"GET", "", "/s/1/2/t/3"}, {"GET", "", "/v/x/"}}}
+	},
+}
+
 func shuffle[T any](r *hx.Rand, xs []T) {
 	for i := len(xs) - 1; i > 0; i-- {
 		j := r.Intn(i + 1)
@@ -242,7 +266,6 @@ func main() {
 		Footer: "Definition mism := Eval vm_compute in a_mismatches cases.\nPrint mism.\n" +
 			"Definition viol := Eval vm_compute in a_violations cases.\nPrint viol.\n" +
 			"Definition oof := Eval vm_compute in a_fuel_outs cases.\nPrint oof.\n" +
-			"Definition known_C16_hostport_error_alloc := Eval vm_compute in a_known_hostport cases.\nPrint known_C16_hostport_error_alloc.\n" +
 			"Definition coldgrowth := Eval vm_compute in a_cold_growth cases.\nPrint coldgrowth.\n",
 	}
 	st := &hx.Stats{Rule: "route sets: random (rt.Pattern: static, {x}, mid-segment a{x}, suffix/infix *{w}, hostnames with label params, 1-3 methods), " +
@@ -265,6 +288,8 @@ func main() {
 		runtime.GC()
 		var rs *routeSet
 		switch k := rnd.Intn(10); {
+		case si < len(fixedSets):
+			rs = fixedSets[si]()
 		case k < 4:
 			rs = genRandom(rnd, []int{0, 25, 75}[rnd.Intn(3)])
 		case k < 8:
@@ -272,7 +297,9 @@ func main() {
 		default:
 			rs = genWide(rnd)
 		}
-		rs.ignoreTS = rnd.Bool()
+		if rs.kind != "witness" {
+			rs.ignoreTS = rnd.Bool()
+		}
 		fw, ok := build(rs)
 		if len(ok) == 0 {
 			continue
@@ -287,50 +314,10 @@ func main() {
 				anyHost = true
 			}
 		}
-		for qi := 0; qi < nreq; qi++ {
-			base := hx.Pick(rnd, ok)
-			host, path := rt.SplitPattern(rt.Instantiate(rnd, base.pat, false))
-			method := base.method
-			kind := "instantiated"
-			if rnd.Pct(30) { // toggle the trailing slash (ignored / redirected tsr)
-				if strings.HasSuffix(path, "/") && len(path) > 1 {
-					path = path[:len(path)-1]
-				} else {
-					path += "/"
-				}
-				kind = "toggled"
-			}
-			for np := 0; rnd.Pct(20) && np < 2; np++ {
-				path = rt.PerturbPath(rnd, path)
-				kind = "perturbed"
-			}
-			if path == "" {
-				path = "/"
-			}
-			hostKind := "plain"
-			switch k := rnd.Intn(20); {
-			case k < 3 && host != "":
-				host += ":8080"
-				hostKind = "port"
-			case k < 5 && host != "":
-				host += "."
-				hostKind = "dot"
-			case k < 6 && host != "":
-				host += ".:443"
-				hostKind = "dot+port"
-			case k < 8 && anyHost:
-				host = hx.Pick(rnd, []string{"unrelated.org", "x.y.z:80", "a", "127.0.0.1:8080"})
-				hostKind = "unrelated"
-			case k < 10 && anyHost:
-				host = hx.Pick(rnd, []string{"[::1]", "::1", "[::1]:8080", "[fe80::1%eth0]", "a:b:80", "a.b:", ":80"})
-				hostKind = "ipv6-or-odd"
-			case k < 11 && host != "":
-				host = rt.PerturbHost(rnd, host)
-				hostKind = "perturbed"
-			}
+		runCase := func(method, host, path, kind, hostKind string) {
 			key := def + "|" + method + "|" + host + "|" + path
 			if seen[key] {
-				continue
+				return
 			}
 			seen[key] = true
 
@@ -401,6 +388,52 @@ func main() {
 			if len(st.Samples) < 8 && matched && len(lo.Params) > 1 && rnd.Pct(2) {
 				st.Samples = append(st.Samples, human)
 			}
+				}
+		for qi := 0; qi < nreq; qi++ {
+			base := hx.Pick(rnd, ok)
+			host, path := rt.SplitPattern(rt.Instantiate(rnd, base.pat, false))
+			method := base.method
+			kind := "instantiated"
+			if rnd.Pct(30) { // toggle the trailing slash (ignored / redirected tsr)
+				if strings.HasSuffix(path, "/") && len(path) > 1 {
+					path = path[:len(path)-1]
+				} else {
+					path += "/"
+				}
+				kind = "toggled"
+			}
+			for np := 0; rnd.Pct(20) && np < 2; np++ {
+				path = rt.PerturbPath(rnd, path)
+				kind = "perturbed"
+			}
+			if path == "" {
+				path = "/"
+			}
+			hostKind := "plain"
+			switch k := rnd.Intn(20); {
+			case k < 3 && host != "":
+				host += ":8080"
+				hostKind = "port"
+			case k < 5 && host != "":
+				host += "."
+				hostKind = "dot"
+			case k < 6 && host != "":
+				host += ".:443"
+				hostKind = "dot+port"
+			case k < 8 && anyHost:
+				host = hx.Pick(rnd, []string{"unrelated.org", "x.y.z:80", "a", "127.0.0.1:8080"})
+				hostKind = "unrelated"
+			case k < 10 && anyHost:
+				host = hx.Pick(rnd, []string{"[::1]", "::1", "[::1]:8080", "[fe80::1%eth0]", "a:b:80", "a.b:", ":80"})
+				hostKind = "ipv6-or-odd"
+			case k < 11 && host != "":
+				host = rt.PerturbHost(rnd, host)
+				hostKind = "perturbed"
+			}
+			runCase(method, host, path, kind, hostKind)
+		}
+		for _, q := range rs.fixed {
+			runCase(q[0], q[1], q[2], "fixed", "fixed")
 		}
 	}
 	st.Evaluations = cs.Len()
